@@ -161,7 +161,10 @@ func runC12(t *testing.T, e *worlds.Env, tier string) (bool, any) {
 			hdrBytes = hdr.Encode()
 			sample.Header = fmt.Sprintf("v%d local=%v unknown=%v src=%v tlv=%d (%d bytes)", hdr.Version, hdr.Local, hdr.Unknown, hdr.Src, len(hdr.TLVs), len(hdrBytes))
 			var allow []string
-			switch tp.Weighted("allow", 3, 2, 2) {
+			switch tp.Weighted("allow", 3, 2, 2, 2) {
+			case 3:
+				// sibling ranges of equal prefix length, the peer in the second one
+				allow = [][]string{{"10.8.0.0/16", "10.9.0.0/16"}, {"10.7.0.0/16", "10.8.0.0/16", "10.9.0.0/16", "192.168.0.0/16"}, {"10.9.1.0/24", "10.9.0.0/24"}}[tp.Choose(3, "siblings")]
 			case 1:
 				allow = []string{"10.9.0.0/16", "127.0.0.1/32"}
 			case 2:
@@ -343,6 +346,12 @@ func runC12(t *testing.T, e *worlds.Env, tier string) (bool, any) {
 			silentFor = 400 * time.Millisecond
 			plan.Chunks[0].Delay = silentFor
 			sample.ClientEnd = "silent for 400ms, then "
+		}
+		if mode == 1 && len(plan.Chunks) >= 2 && tp.Prob(1, 5, "long-session") {
+			// a session that is still in use well after the dial: the rest of the stream follows
+			// the header no matter how late it is sent
+			plan.Chunks[len(plan.Chunks)-1].Delay = 6 * time.Second
+			sample.ClientEnd += "last chunk after 6s, then "
 		}
 		plan.End = worlds.EndHalfClose
 		sample.ClientEnd += "half-close"
